@@ -620,7 +620,7 @@ def _r19_6(run: Run, res: Resolver) -> None:
                 ok = not bad_defs
                 run.instance("R19.6", f2.module.loc(n), f"{f2.qualname}: allowed_root of check_staleness does not derive from the document being checked", ok=ok)
                 for v in bad_defs:
-                    run.violation("R19.6", f2.module, f2.qualname, v, "the containment root handed to check_staleness is computed from the document's own SOURCE_URI values: a document can widen its own sandbox",
+                    run.violation("R19.6", f2.module, f2.qualname, (ast.unparse(v.func) + "(<document>, ...)") if isinstance(v, ast.Call) else norm(v), "the containment root handed to check_staleness is computed from the document's own SOURCE_URI values: a document can widen its own sandbox",
                                   failing_input='hydrated document with SOURCE_URI::"../../../../etc/hostname": `octave hydrate --check` reads that file and prints its hash prefix')
     if n_calls == 0:
         raise AnalysisError("no call of check_staleness found")
